@@ -37,6 +37,131 @@ type C01Spec struct {
 	// 3 NewRow().Add(NewCell(item)), AddRow + CellAt(1,1); 4 AppendNewRow().Add(NewCell(item)) + &row.Cells()[0];
 	// 5 AddHeaders("h", item), AddRowItems(item, "x") + &AllRows()[0].Cells()[0]
 	Via int `json:"via,omitempty"`
+	// items put into cells of their own (NewCell, observed once) BEFORE the item
+	// under test, in the same process: whatever the library remembers between
+	// cells is exercised, and a replay of the one case reproduces it
+	Also []ItemSpec `json:"also,omitempty"`
+}
+
+// ---------------------------------------------------------------- item kinds of this file
+//
+// "num": scalars that compare equal (==) to another value of the same type and
+// yet format differently (signed zeros), or are not equal to themselves (NaN).
+var c01Nums = []interface{}{
+	float64(0), math.Copysign(0, -1), math.NaN(),
+	float32(0), float32(math.Copysign(0, -1)), float32(math.NaN()),
+	complex(0, 0), complex(math.Copysign(0, -1), 0), complex(0, math.Copysign(0, -1)), complex(math.Copysign(0, -1), math.Copysign(0, -1)),
+	complex64(complex(0, 0)), complex64(complex(math.Copysign(0, -1), 0)), complex64(complex(0, math.Copysign(0, -1))), complex64(complex(math.Copysign(0, -1), math.Copysign(0, -1))),
+	int(0), uint8(0), int64(0), uint(0), float64(1), float32(1), float64(-1), int8(-1), uint16(1), false, true, uintptr(0),
+	complex(math.NaN(), 0), math.Inf(1), math.Inf(-1),
+}
+
+var c01NumGo = []string{
+	"float64(0)", "math.Copysign(0, -1)", "math.NaN()",
+	"float32(0)", "float32(math.Copysign(0, -1))", "float32(math.NaN())",
+	"complex(0, 0)", "complex(math.Copysign(0, -1), 0)", "complex(0, math.Copysign(0, -1))", "complex(math.Copysign(0, -1), math.Copysign(0, -1))",
+	"complex64(complex(0, 0))", "complex64(complex(math.Copysign(0, -1), 0))", "complex64(complex(0, math.Copysign(0, -1)))", "complex64(complex(math.Copysign(0, -1), math.Copysign(0, -1)))",
+	"int(0)", "uint8(0)", "int64(0)", "uint(0)", "float64(1)", "float32(1)", "float64(-1)", "int8(-1)", "uint16(1)", "false", "true", "uintptr(0)",
+	"complex(math.NaN(), 0)", "math.Inf(1)", "math.Inf(-1)",
+}
+
+func c01Num(i int64) ItemSpec { return ItemSpec{K: "num", I: i} }
+
+// the value that is == to c01Nums[i] (or plays that role) and formats differently
+var c01Twin = map[int64]int64{0: 1, 1: 0, 2: 2, 3: 4, 4: 3, 5: 5, 6: 9, 7: 6, 8: 6, 9: 6, 10: 13, 11: 10, 12: 10, 13: 10, 26: 26}
+
+// withTwins puts, before every such scalar of the case, its twin: whatever the
+// library remembered from earlier cases of the process, the case then fails
+// or passes on its own, so a replay of the one case reproduces
+func withTwins(sp C01Spec) C01Spec {
+	_, base := sp.Item.chain()
+	var also []ItemSpec
+	for _, a := range append(append([]ItemSpec{}, sp.Also...), base) {
+		if a.K == "num" {
+			if t, ok := c01Twin[a.I%int64(len(c01Nums))]; ok {
+				also = append(also, c01Num(t))
+			}
+		}
+	}
+	sp.Also = append(also, sp.Also...)
+	return sp
+}
+
+func hasNum(sp C01Spec) bool {
+	_, base := sp.Item.chain()
+	if base.K == "num" {
+		return true
+	}
+	for _, a := range sp.Also {
+		if a.K == "num" {
+			return true
+		}
+	}
+	return false
+}
+
+// items stored BY VALUE (struct and array kinds) whose text depends on state
+// reached through a reference inside them
+type c01StructSlice struct {
+	A []int
+	N string
+}
+type c01StructMap struct{ M map[string]int }
+type c01ValStrPtr struct{ p *string }
+
+func (v c01ValStrPtr) String() string { return *v.p }
+
+type c01ValErrMap struct{ m map[string]string }
+
+func (v c01ValErrMap) Error() string { return v.m["k"] }
+
+type c01ValGoStrSlice struct{ b []string }
+
+func (v c01ValGoStrSlice) GoString() string { return strings.Join(v.b, "|") }
+
+type c01ArrPtr [2]*O01
+
+var c01ByValueKinds = []string{"structslice", "structmap", "valstrptr", "valerrmap", "valgostrslice", "arrptr"}
+
+// c01Make builds the base item and says how a mutation round changes it
+func c01Make(base ItemSpec) (interface{}, func(C01Round)) {
+	switch base.K {
+	case "num":
+		return c01Nums[int(base.I)%len(c01Nums)], func(C01Round) {}
+	case "structslice":
+		a := []int{int(base.I), 2}
+		return c01StructSlice{A: a, N: string(base.B)}, func(rd C01Round) { a[0] = rd.H }
+	case "structmap":
+		m := map[string]int{"k": int(base.I)}
+		return c01StructMap{M: m}, func(rd C01Round) { m["k"] = rd.H }
+	case "valstrptr":
+		p := new(string)
+		*p = string(base.B)
+		return c01ValStrPtr{p}, func(rd C01Round) { *p = string(rd.S) }
+	case "valerrmap":
+		m := map[string]string{"k": string(base.B)}
+		return c01ValErrMap{m}, func(rd C01Round) { m["k"] = string(rd.E) }
+	case "valgostrslice":
+		b := []string{string(base.B), "z"}
+		return c01ValGoStrSlice{b}, func(rd C01Round) { b[0] = string(rd.G) }
+	case "arrptr":
+		a := c01ArrPtr{&O01{objData{s: string(base.B)}}, &O01{objData{s: "second"}}}
+		return a, func(rd C01Round) { a[0].s = string(rd.S) }
+	}
+	v, d := base.Make()
+	switch base.K {
+	case "obj":
+		return v, func(rd C01Round) {
+			if d != nil {
+				*d = objData{s: string(rd.S), g: string(rd.G), e: string(rd.E), h: rd.H, w: rd.W}
+			}
+		}
+	case "slice":
+		return v, func(rd C01Round) { v.([]int)[0] = rd.H }
+	case "map":
+		return v, func(rd C01Round) { v.(map[string]int)[string(base.B)] = rd.H }
+	}
+	return v, func(C01Round) {}
 }
 
 const c01ViaN = 6
@@ -195,8 +320,18 @@ func sameItem(orig, got interface{}) (same bool) {
 	if to != tg {
 		return false
 	}
-	if f, ok := orig.(float64); ok {
-		return math.Float64bits(f) == math.Float64bits(got.(float64))
+	if oc, ok := orig.(tabular.Cell); ok {
+		// a Cell value: the same stored item (recursively) and the same cached text
+		gc := got.(tabular.Cell)
+		return sameItem(oc.Item(), gc.Item()) && oc.String() == gc.String() && oc.Empty() == gc.Empty() &&
+			oc.Height() == gc.Height() && oc.TerminalCellWidth() == gc.TerminalCellWidth()
+	}
+	switch to.Kind() {
+	case reflect.Float32, reflect.Float64:
+		return math.Float64bits(reflect.ValueOf(orig).Float()) == math.Float64bits(reflect.ValueOf(got).Float())
+	case reflect.Complex64, reflect.Complex128:
+		a, b := reflect.ValueOf(orig).Complex(), reflect.ValueOf(got).Complex()
+		return math.Float64bits(real(a)) == math.Float64bits(real(b)) && math.Float64bits(imag(a)) == math.Float64bits(imag(b))
 	}
 	if to.Comparable() {
 		return orig == got
@@ -295,15 +430,55 @@ func c01Run(sp C01Spec) (coq string, desc C01Desc, texts []string, lv []*c01Leve
 	wraps, base := sp.Item.chain()
 	// level 0
 	var baseVal interface{}
-	var baseData *objData
+	var mutate func(C01Round)
 	func() {
 		defer func() {
 			if r := recover(); r != nil {
 				panic(fmt.Sprintf("harness: cannot build the base item: %v", r))
 			}
 		}()
-		baseVal, baseData = base.Make()
+		baseVal, mutate = c01Make(base)
 	}()
+	// the items that go first
+	var pre []*c01Level
+	var preDesc []c01LevelDesc
+	for _, a := range sp.Also {
+		_, ab := a.chain()
+		av, _ := c01Make(ab)
+		pl := &c01Level{stored: av}
+		id := 0
+		switch ab.K {
+		case "nil":
+			pl.itemCoq = "INil"
+		case "str":
+			pl.itemCoq = "(IString " + cqStr(string(ab.B)) + ")"
+			texts = append(texts, string(ab.B))
+		case "rune":
+			pl.itemCoq = "(IRune " + cqZ(int64(ab.R)) + ")"
+			texts = append(texts, string(rune(ab.R)))
+		default:
+			pl.itemCoq = "(IObj 1%N)"
+			id = 1
+		}
+		var dj *descJSON
+		pl.env0, dj = envCoq(id, av, &texts)
+		func() {
+			defer func() {
+				if r := recover(); r != nil {
+					pl.newObs = C01Obs{Panic: fmt.Sprint(r)}
+					pl.panicky = true
+				}
+			}()
+			c := tabular.NewCell(av)
+			pl.cell = &c
+		}()
+		if !pl.panicky {
+			pl.newObs = observeCell(pl.cell, pl.stored)
+		}
+		texts = append(texts, pl.newObs.Text)
+		pre = append(pre, pl)
+		preDesc = append(preDesc, c01LevelDesc{Level: -len(pre), Item: "before:" + ab.K, Object: dj, New: pl.newObs})
+	}
 	l0 := &c01Level{stored: baseVal}
 	switch base.K {
 	case "nil":
@@ -376,16 +551,7 @@ func c01Run(sp C01Spec) (coq string, desc C01Desc, texts []string, lv []*c01Leve
 	// rounds
 	for _, rd := range sp.Rounds {
 		// mutate the base item
-		switch base.K {
-		case "obj":
-			if baseData != nil {
-				*baseData = objData{s: string(rd.S), g: string(rd.G), e: string(rd.E), h: rd.H, w: rd.W}
-			}
-		case "slice":
-			baseVal.([]int)[0] = rd.H
-		case "map":
-			baseVal.(map[string]int)[string(base.B)] = rd.H
-		}
+		mutate(rd)
 		before := make([]C01Obs, len(lv))
 		for k, l := range lv {
 			before[k] = observeCell(l.cell, l.stored)
@@ -421,6 +587,10 @@ func c01Run(sp C01Spec) (coq string, desc C01Desc, texts []string, lv []*c01Leve
 		}
 	}
 	var lcs []string
+	for _, l := range pre {
+		lcs = append(lcs, fmt.Sprintf("(mkLevel %s %s %s [])", l.itemCoq, l.env0, l.newObs.Coq()))
+	}
+	descL = append(preDesc, descL...)
 	for _, l := range lv {
 		lcs = append(lcs, fmt.Sprintf("(mkLevel %s %s %s %s)", l.itemCoq, l.env0, l.newObs.Coq(), cqList(l.rounds)))
 	}
@@ -435,16 +605,36 @@ func c01Run(sp C01Spec) (coq string, desc C01Desc, texts []string, lv []*c01Leve
 			}
 		}
 	}
-	desc = C01Desc{Sig: c01Sig(base), Levels: descL, GoCode: c01GoSnippet(wraps, base, sp.Via)}
+	desc = C01Desc{Sig: c01SigSpec(sp, base), Levels: descL, GoCode: c01GoSnippet(wraps, base, sp.Via, sp.Also)}
 	return cqPair(cqList(ws), cqList(lcs)), desc, texts, lv
 }
 
 // c01GoSnippet: a Go expression that builds the outermost cell (only for item
 // kinds that have a literal; objects are the generated types of
 // harness/objtypes_gen.go and are described under "object")
-func c01GoSnippet(wraps []string, base ItemSpec, via int) string {
+func c01GoLiteral(base ItemSpec) string {
+	switch base.K {
+	case "nil":
+		return "nil"
+	case "str":
+		return fmt.Sprintf("%q", string(base.B))
+	case "rune":
+		return fmt.Sprintf("rune(%d)", base.R)
+	case "int":
+		return fmt.Sprintf("%d", base.I)
+	case "bool":
+		return fmt.Sprintf("%v", base.I != 0)
+	case "num":
+		return c01NumGo[int(base.I)%len(c01NumGo)]
+	}
+	return ""
+}
+
+func c01GoSnippet(wraps []string, base ItemSpec, via int, also []ItemSpec) string {
 	var e string
 	switch base.K {
+	case "num":
+		e = c01GoLiteral(base)
 	case "nil":
 		e = "nil"
 	case "str":
@@ -470,7 +660,25 @@ func c01GoSnippet(wraps []string, base ItemSpec, via int) string {
 	if via < 0 || via >= len(c01ViaGo) {
 		return ""
 	}
-	return strings.Replace(c01ViaGo[via], "ITEM", e, -1) + "; c.String(), c.Empty(), c.Item()"
+	pre := ""
+	for _, a := range also {
+		lit := c01GoLiteral(a)
+		if lit == "" {
+			return ""
+		}
+		pre += "_ = tabular.NewCell(" + lit + "); "
+	}
+	return pre + strings.Replace(c01ViaGo[via], "ITEM", e, -1) + "; c.String(), c.Empty(), c.Item()"
+}
+
+func c01SigSpec(sp C01Spec, base ItemSpec) string {
+	if hasNum(sp) {
+		return "item=scalar-after-an-equal-scalar"
+	}
+	if len(sp.Also) > 0 {
+		return c01Sig(base) + "-after-other-items"
+	}
+	return c01Sig(base)
 }
 
 func c01Sig(base ItemSpec) string {
@@ -540,6 +748,10 @@ func c01RandBase(r *RNG) ItemSpec {
 		return ItemSpec{K: pick(r, []string{"slice", "map", "structx"}), I: int64(r.Intn(50)), B: []byte(pick(r, c01Texts))}
 	case 8:
 		return ItemSpec{K: pick(r, []string{"valstr", "strerr"}), B: []byte(pick(r, c01Texts))}
+	case 9:
+		return c01Num(int64(r.Intn(len(c01Nums))))
+	case 10:
+		return ItemSpec{K: pick(r, c01ByValueKinds), B: []byte(pick(r, c01Texts)), I: int64(r.Intn(9))}
 	default:
 		return c01Obj(r.Intn(32), r.Intn(len(c01Texts)), r.Intn(9))
 	}
@@ -548,6 +760,12 @@ func c01RandBase(r *RNG) ItemSpec {
 func c01Tags(sp C01Spec) []string {
 	wraps, base := sp.Item.chain()
 	tags := []string{"base=" + base.K, fmt.Sprintf("depth=%d", len(wraps)), fmt.Sprintf("rounds=%d", len(sp.Rounds)), fmt.Sprintf("via=%d", sp.Via)}
+	if len(sp.Also) > 0 {
+		tags = append(tags, fmt.Sprintf("items-before=%d", len(sp.Also)))
+	}
+	if base.K == "num" {
+		tags = append(tags, "num="+c01NumGo[int(base.I)%len(c01NumGo)])
+	}
 	if sp.Via != 0 && len(wraps) > 0 && wraps[0] == "cell" {
 		tags = append(tags, "cell-value-stored-through-table")
 	}
@@ -585,6 +803,7 @@ func c01Size(sp C01Spec) int {
 	if sp.Via != 0 {
 		n += 2
 	}
+	n += 5 * len(sp.Also)
 	for _, w := range wraps {
 		if w == "pcell" {
 			n += 2
@@ -611,13 +830,23 @@ func c01Size(sp C01Spec) int {
 func c01Shrink(sp C01Spec) []C01Spec {
 	var out []C01Spec
 	wraps, base := sp.Item.chain()
+	// candidates that drop an item which goes first come first: the library
+	// may remember texts across cells, and candidates share one process
+	if len(sp.Also) > 0 && !hasNum(sp) {
+		out = append(out, C01Spec{Item: sp.Item, Rounds: sp.Rounds, Via: sp.Via})
+		for i := range sp.Also {
+			if len(sp.Also) > 1 {
+				out = append(out, C01Spec{Item: sp.Item, Rounds: sp.Rounds, Via: sp.Via, Also: append(append([]ItemSpec{}, sp.Also[:i]...), sp.Also[i+1:]...)})
+			}
+		}
+	}
 	with := func(w []string, b ItemSpec, rounds []C01Round) {
-		out = append(out, C01Spec{Item: wrapItem(w, b), Rounds: rounds, Via: sp.Via})
+		out = append(out, C01Spec{Item: wrapItem(w, b), Rounds: rounds, Via: sp.Via, Also: sp.Also})
 	}
 	if sp.Via != 0 {
-		out = append(out, C01Spec{Item: sp.Item, Rounds: sp.Rounds})
+		out = append(out, C01Spec{Item: sp.Item, Rounds: sp.Rounds, Also: sp.Also})
 		if sp.Via != 1 {
-			out = append(out, C01Spec{Item: sp.Item, Rounds: sp.Rounds, Via: 1})
+			out = append(out, C01Spec{Item: sp.Item, Rounds: sp.Rounds, Via: 1, Also: sp.Also})
 		}
 	}
 	if len(sp.Rounds) > 0 {
@@ -685,7 +914,8 @@ func init() {
 		ModelFn:  "C01_model",
 		Rule: "items of every kind the library distinguishes: nil, strings (empty, ASCII, multi-line, multibyte, ill-formed UTF-8), runes (ASCII, NUL, 2/3/4-byte, surrogates, U+FFFD, > U+10FFFF, negative, int32 extremes), " +
 			"32 generated pointer types = every subset of {String, GoString, Error} x {Height, TerminalCellWidth} with the selected method returning each text class (the others return something else), " +
-			"int, bool, float, slice, map, struct, value-receiver Stringer, string-kind error, chan; each also nested in Cell and *Cell up to depth 3; " +
+			"int, bool, float, slice, map, struct, value-receiver Stringer, string-kind error, chan; scalars that are == another value and format differently or are != themselves (signed zeros and NaN of float32/float64/complex64/complex128, infinities), put into cells one after the other in one process in both orders; " +
+			"items stored BY VALUE whose text is reached through a reference inside them (struct with a slice / map field under %v, value-receiver String / Error / GoString reading through a pointer / map / slice field, array of pointers to Stringers), mutated through that reference; each also nested in Cell and *Cell up to depth 3; " +
 			"0-2 mutation rounds (object fields / slice element / map value changed, then every level observed, then Update bottom-up or top-down, then observed); " +
 			"the outermost cell is made by NewCell or the item is stored THROUGH a table (AddRowItems, AddHeaders, NewRow+Add+AddRow, AppendNewRow+Add, header and body together) and the cell the table hands out (CellAt, Headers(), Row.Cells()) is the one observed and Updated, with the same expectations; " +
 			"observed per level and phase: String, Empty, Item identity (type and value of what Item() hands back), Height, TerminalCellWidth; a case is non-trivial when the base item is not nil; distinct = distinct Coq case term",
@@ -717,6 +947,26 @@ func init() {
 				add(C01Spec{Item: o})
 				for via := 1; via < c01ViaN; via++ {
 					add(C01Spec{Item: o, Rounds: []C01Round{{H: 9}, {H: 10, TopDown: true}}, Via: via})
+				}
+			}
+			// values that are == and yet format differently (or are != themselves), one after the other in one process
+			for k, pr := range [][2]int64{{0, 1}, {4, 3}, {6, 9}, {13, 10}, {7, 8}, {11, 12}, {2, 2}, {5, 5}, {26, 26}, {1, 0}, {3, 4}, {14, 16}, {18, 19}} {
+				add(C01Spec{Item: c01Num(pr[1]), Also: []ItemSpec{c01Num(pr[0])}, Via: k % c01ViaN})
+				add(C01Spec{Item: wrapItem([]string{"cell"}, c01Num(pr[0])), Also: []ItemSpec{c01Num(pr[1]), c01Num(pr[0])}})
+			}
+			for k := range c01Nums {
+				add(withTwins(C01Spec{Item: c01Num(int64(k)), Rounds: []C01Round{{}}}))
+			}
+			// items held by value whose text is reached through a reference inside them
+			for k, kind := range c01ByValueKinds {
+				for j, t := range c01Texts {
+					b := ItemSpec{K: kind, B: []byte(t), I: int64(j)}
+					rounds := []C01Round{{S: []byte("changed"), G: []byte("G2"), E: []byte("E2"), H: 70 + j}, {H: j}, {S: []byte(t), G: []byte(t), E: []byte(t), H: j}}
+					add(C01Spec{Item: b, Rounds: rounds, Via: (k + j) % c01ViaN})
+					if j < 3 {
+						add(C01Spec{Item: wrapItem([]string{"pcell"}, b), Rounds: rounds[:2]})
+						add(C01Spec{Item: wrapItem([]string{"cell"}, b), Rounds: rounds[:1], Via: 1 + j})
+					}
 				}
 			}
 			// nesting
@@ -751,7 +1001,17 @@ func init() {
 				if r.Pct(50) {
 					via = 1 + r.Intn(c01ViaN-1)
 				}
-				add(C01Spec{Item: wrapItem(w, b), Rounds: rounds, Via: via})
+				var also []ItemSpec
+				if r.Pct(20) {
+					for d := 1 + r.Intn(2); d > 0; d-- {
+						if r.Pct(50) {
+							also = append(also, c01Num(int64(r.Intn(len(c01Nums)))))
+						} else {
+							also = append(also, c01RandBase(r))
+						}
+					}
+				}
+				add(withTwins(C01Spec{Item: wrapItem(w, b), Rounds: rounds, Via: via, Also: also}))
 			}
 			return out
 		},
